@@ -14,7 +14,7 @@ namespace Tcb
 
 /-- endpoint `x` (TCB `t`, peer's TCB `u`): nothing queued, unsent, buffered or parked, everything acknowledged and
     received by the peer; the state is left open -/
-structure CalmX (x : SideId) (t u : Tcb) : Prop where
+structure RestX (x : SideId) (t u : Tcb) : Prop where
   heap : t.incoming.segments = []
   buf : t.incoming.text = []
   text : t.outgoing.text = []
@@ -42,7 +42,7 @@ theorem emitOut_quiet (t : Tcb) (h1 : t.outgoing.oneshot = []) (h2 : t.outgoing.
   simp only [h1, h2, List.map_nil, List.filter_nil, List.append_nil]
 
 /-- the side in FIN-WAIT-2 -/
-theorem tail_fw2 (x : SideId) (t u : Tcb) (hst : t.state = .FinWait2) (q : CalmX x t u) (gF : Segment)
+theorem tail_fw2 (x : SideId) (t u : Tcb) (hst : t.state = .FinWait2) (q : RestX x t u) (gF : Segment)
     (hF : IsFin gF t.rcv.nxt t.snd.nxt) :
     t.segments = .ok (emitT t, []) ∧ (emitT t).arriveList [gF] = .ok (tailA2 t) ∧
       (tailA2 t).receive = (tailA2 t, []) ∧
@@ -70,7 +70,7 @@ theorem tail_fw2 (x : SideId) (t u : Tcb) (hst : t.state = .FinWait2) (q : CalmX
   exact this
 
 /-- the side in CLOSE-WAIT -/
-theorem tail_cw (x : SideId) (t u : Tcb) (hst : t.state = .CloseWait) (q : CalmX x t u) (gA : Segment)
+theorem tail_cw (x : SideId) (t u : Tcb) (hst : t.state = .CloseWait) (q : RestX x t u) (gA : Segment)
     (hA : IsAck gA t.rcv.nxt (t.snd.nxt + 1)) :
     t.close = .ok (tailB1 t, .Ok) ∧ (tailB1 t).segments = .ok (emitT (tailB1 t), [tailFin t]) ∧
       IsFin (tailFin t) t.snd.nxt t.rcv.nxt ∧
@@ -118,7 +118,7 @@ def releaseTail (s : Sys) : Except String Sys :=
 
 /-- **the second half of a sequential close** from any quiet FIN-WAIT-2 / CLOSE-WAIT pair -/
 theorem release_tail (s : Sys) (ta tb : Tcb) (ha : (s.side .A).tcb = some ta) (hb : (s.side .B).tcb = some tb)
-    (sa : ta.state = .FinWait2) (sb : tb.state = .CloseWait) (qa : CalmX .A ta tb) (qb : CalmX .B tb ta) :
+    (sa : ta.state = .FinWait2) (sb : tb.state = .CloseWait) (qa : RestX .A ta tb) (qb : RestX .B tb ta) :
     ∃ s', releaseTail s = .ok s' ∧ FinRun s s' ∧ (s'.side .A).tcb = none ∧ (s'.side .B).tcb = none ∧
       (s'.side .A).submitted = (s.side .A).submitted ∧ (s'.side .B).submitted = (s.side .B).submitted ∧
       (s'.side .A).delivered = (s.side .A).delivered ∧ (s'.side .B).delivered = (s.side .B).delivered ∧
